@@ -2,10 +2,14 @@ package main
 
 import (
 	"bytes"
+	"context"
 	"encoding/json"
 	"fmt"
 	"net/http/httptest"
+	"strings"
 	"time"
+
+	"nhooyr.io/websocket"
 
 	eio "github.com/karagenc/socket.io-go/engine.io"
 	"github.com/karagenc/socket.io-go/engine.io/parser"
@@ -39,6 +43,10 @@ type wsCase struct {
 	// Upgraded: the session starts on long-polling and is upgraded to WebSocket before the message is sent
 	// (the server transport is then set up by the upgrade path, not by the handshake)
 	Upgraded bool `json:"upgraded,omitempty"`
+	// B64: the client is a raw WebSocket client that announced b64=1 in its handshake URL (a client without
+	// binary support: the server sends binary data as base64 text). Client->server only; the Go client never
+	// asks for that (seed c13i: the read limit of such connections inflated to the base64 size of the limit).
+	B64 bool `json:"b64,omitempty"`
 }
 
 func (c wsCase) String() string {
@@ -53,6 +61,9 @@ func (c wsCase) String() string {
 	how := "a real WebSocket"
 	if c.Upgraded {
 		how = "a real WebSocket reached by upgrading a long-polling session"
+	}
+	if c.B64 {
+		how = "a real WebSocket whose client announced b64=1 (raw client)"
 	}
 	return fmt.Sprintf("MaxBufferSize=%s, %s %s message of %d bytes over %s", c.Limit, dir, kind, c.Size, how)
 }
@@ -86,6 +97,9 @@ func runWSCase(c *ctx, wc wsCase, limIdx int, st *partStats) {
 	upIdx := 0
 	if wc.Upgraded {
 		upIdx = 1
+	}
+	if wc.B64 {
+		upIdx = 2
 	}
 	rank := []int{3, limIdx, wc.Size, dirIdx, binIdx, upIdx}
 	report := func(key, what string) {
@@ -168,10 +182,40 @@ func runWSCase(c *ctx, wc wsCase, limIdx int, st *partStats) {
 			}
 		}}
 	}
-	cli, err = eio.Dial(ts.URL, callbacks("client", ""), ccfg)
-	if err != nil {
-		c.harnessErr("ws rig: dial: " + err.Error())
-		return
+	var raw *websocket.Conn
+	rawSID := ""
+	if wc.B64 {
+		dctx, cancel := context.WithTimeout(context.Background(), curDeadline())
+		defer cancel()
+		raw, _, err = websocket.Dial(dctx, "ws"+strings.TrimPrefix(ts.URL, "http")+"/engine.io/?EIO=4&transport=websocket&b64=1", nil)
+		if err != nil {
+			c.harnessErr("ws rig: raw dial: " + err.Error())
+			return
+		}
+		defer raw.CloseNow()
+		_, open, rerr := raw.Read(dctx)
+		var hs struct {
+			SID string `json:"sid"`
+		}
+		if rerr != nil || len(open) < 2 || open[0] != '0' || json.Unmarshal(open[1:], &hs) != nil || hs.SID == "" {
+			c.harnessErr(fmt.Sprintf("ws rig: raw client: no OPEN packet (%v, %q)", rerr, open))
+			return
+		}
+		rawSID = hs.SID
+		// keep reading like any client does (pings, and the close handshake when the server refuses a message)
+		go func() {
+			for {
+				if _, _, err := raw.Read(dctx); err != nil {
+					return
+				}
+			}
+		}()
+	} else {
+		cli, err = eio.Dial(ts.URL, callbacks("client", ""), ccfg)
+		if err != nil {
+			c.harnessErr("ws rig: dial: " + err.Error())
+			return
+		}
 	}
 	if wc.Upgraded {
 		select {
@@ -181,11 +225,14 @@ func runWSCase(c *ctx, wc wsCase, limIdx int, st *partStats) {
 			return
 		}
 	}
-	if cli.TransportName() != "websocket" {
+	if cli != nil && cli.TransportName() != "websocket" {
 		c.harnessErr("ws rig: transport is " + cli.TransportName())
 		return
 	}
-	mySID := cli.ID()
+	mySID := rawSID
+	if cli != nil {
+		mySID = cli.ID()
+	}
 	var ss eio.ServerSocket
 	for ss == nil {
 		select {
@@ -226,6 +273,13 @@ func runWSCase(c *ctx, wc wsCase, limIdx int, st *partStats) {
 	}
 	go func() {
 		// Send may block on a peer that stopped reading, or fail; neither matters here
+		if raw != nil {
+			wctx, cancel := context.WithTimeout(context.Background(), curDeadline())
+			defer cancel()
+			raw.Write(wctx, websocket.MessageText, append([]byte("4"), tested.Data...))
+			raw.Write(wctx, websocket.MessageText, []byte("4B"))
+			return
+		}
 		sender.Send(tested)
 		sender.Send(barrier)
 	}()
@@ -372,6 +426,14 @@ func wsCases(c *ctx) (cases []wsCase, limIdx []int) {
 						limIdx = append(limIdx, li)
 					}
 				}
+			}
+			// a client without binary support (b64=1), text, client->server; also 4/3 of the limit (what the base64
+			// form of a message of limit bytes takes)
+			cases = append(cases, wsCase{Part: "ws", Limit: spec.Name, Size: size, Dir: "c2s", B64: true})
+			limIdx = append(limIdx, li)
+			if limit > 0 && size == limit {
+				cases = append(cases, wsCase{Part: "ws", Limit: spec.Name, Size: 1 + (limit+2)/3*4, Dir: "c2s", B64: true})
+				limIdx = append(limIdx, li)
 			}
 		}
 	}
